@@ -33,6 +33,11 @@ FIELD_NAMES = [
     "guild_tag", "spell", "dir", "coords", "session", "reply_code", "warp_type", "file_type",
     "x1", "y2", "sub_loc", "map_id", "player_id", "s", "n", "k", "v", "p", "q", "r", "t", "u",
     "exp", "usage", "weight", "max_hp", "min_dam", "items", "chars", "entries", "list", "rows",
+    # identifiers a code generator is likely to use for its own locals some day
+    "index", "idx", "j", "length", "size", "value", "item", "element", "elem", "key", "type", "obj", "cls",
+    "start", "end", "pos", "position", "offset", "remaining", "chunk", "buf", "tmp", "ret", "res", "out",
+    "val", "arr", "array", "field", "struct", "packet", "e", "o", "d", "m", "l", "text", "string", "number",
+    "itemID", "hpMax", "a__b",
 ]
 # never generated: names the generated code uses itself
 RESERVED = {"i", "reader", "writer", "data", "result", "byte_size", "serialize", "deserialize",
@@ -288,6 +293,8 @@ class _Gen:
         c = self.comment()
         if c:
             ins["comment"] = c
+            if hard and self.boolean(0.5):
+                ins["value_after_comment"] = True
         body.append(ins)
         ctx["fields"][name] = ins
         if r["kind"] in ("int", "enum") and not hard:
@@ -368,6 +375,8 @@ class _Gen:
                 ins["trailing"] = True
         elif self.f["explicit_false"] and self.boolean(0.06):
             ins["delimited"] = False
+        if not delimited and self.f["explicit_false"] and self.boolean(0.08):
+            ins["trailing"] = self.boolean(0.5)     # meaningless without delimited="true", but legal
         if ctx["opt"] or self.boolean(0.1):
             if self.f["optional_array"]:
                 self.set_optional(ctx, ins, p=1.0)
@@ -515,7 +524,11 @@ class _Gen:
                 c["value"] = val
                 if self.f["explicit_false"] and self.boolean(0.08):
                     c["default"] = False
-            if self.boolean(0.3):
+            prev = [x for x in cases if x.get("body")]
+            if prev and self.boolean(0.15):
+                import copy as _copy
+                c["body"] = _copy.deepcopy(self.pick(prev)["body"])     # two cases with the same layout
+            elif self.boolean(0.3):
                 c["body"] = []
             else:
                 popt = ctx["opt"]
